@@ -45,13 +45,17 @@ unsigned char tape[TAPE];
 long clk[K + 4];          /* MODE 1: clock increments */
 long wpass[K + 1];        /* MODE 1: earliest due time reported by pass_selprep, relative */
 long wclean[K + 1];
+unsigned char spawnbyte[2];   /* MODE 2: concurrency limit announced by each spawner */
+unsigned int cfg[2];          /* MODE 2: configured concurrency (control files) */
+int lock_fails;               /* MODE 2: another qmail-send holds lock/sendmutex */
+int read_result[2];           /* MODE 2: 1 byte read, 0 EOF, -1 error */
 
 void sym_inputs(void)
 {
 #ifdef REPLAY
 #include "replay_inputs.inc"
 #else
-  SYM_ARR(tape); SYM_ARR(clk); SYM_ARR(wpass); SYM_ARR(wclean);
+  SYM_ARR(tape); SYM_ARR(clk); SYM_ARR(wpass); SYM_ARR(wclean); SYM_ARR(spawnbyte); SYM_ARR(cfg); SYM(lock_fails); SYM_ARR(read_result);
 #endif
 }
 
@@ -187,8 +191,22 @@ struct dirent *vf_readdir(DIR *d)
 int vf_closedir(DIR *d) { env_step(); dir_open = 0; return 0; }
 int vf_chdir(const char *p) { return 0; }
 mode_t vf_umask(mode_t m) { return 0; }
+static int mutating_calls;      /* MODE 2: anything that could touch the queue */
+#if MODE == 2
+int lock_exnb(int fd) { CHECK(fd == 3, "locks lock/sendmutex"); if (lock_fails) { errno = EWOULDBLOCK; return -1; } return 0; }
+ssize_t vf_read(int fd, void *buf, size_t n)
+{
+  int c = (fd == chanfdin[0]) ? 0 : 1;
+  CHECK(fd == chanfdin[0] || fd == chanfdin[1], "start-up reads the spawners' announcements");
+  CHECK(!lock_fails, "C02: a second daemon reads nothing from the spawners");
+  if (read_result[c] < 1) { errno = EIO; return read_result[c]; }
+  *(char *) buf = (char) spawnbyte[c];
+  return 1;
+}
+#else
 int lock_exnb(int fd) { return 0; }
 ssize_t vf_read(int fd, void *buf, size_t n) { *(char *) buf = 2; return 1; }   /* spawner announces concurrency 2 */
+#endif
 int vf_stat(const char *p, struct stat *st) { errno = ENOENT; return -1; }
 
 
@@ -197,6 +215,20 @@ int vf_select(int nfds, fd_set *rfds, fd_set *wfds, fd_set *efds, struct timeval
   int i, readable, sel_trigger;
   env_step();
   ++nselect;
+#if MODE == 2
+  {
+    int c; unsigned int sum = 0;
+    CHECK(!lock_fails, "C02: a second daemon never reaches its main loop");
+    for (c = 0; c < 2; ++c) {
+      unsigned int want = cfg[c] < spawnbyte[c] ? cfg[c] : spawnbyte[c];
+      CHECK(concurrency[c] == want, "C04: concurrency = min(configured, limit announced by the spawner)");
+      sum += want;
+    }
+    CHECK((unsigned int) numjobs == sum, "job table sized for the clamped concurrency");
+    WITNESS("started_with_clamped_concurrency");
+    PATH_END();
+  }
+#endif
   if (nselect > K) { PATH_END(); }
   sel_trigger = (cur_rfd >= 0 && cur_rfd < nfds && FD_ISSET(cur_rfd, rfds));
 #if MODE == 0
@@ -276,7 +308,15 @@ void sig_hangupcatch(void (*f)()) {} void sig_childdefault(void) {}
 
 void vf__exit(int s)
 {
+#if MODE == 2
+  CHECK(s == 111, "start-up failures exit 111");
+  CHECK(lock_fails || read_result[0] < 1 || read_result[1] < 1, "exits at start-up only if the mutex is held or a spawner is missing");
+  CHECK(rd_open == 0 && !dir_open, "C02: a daemon that cannot start has not touched the trigger or todo/");
+  if (lock_fails) WITNESS("second_daemon_refused");
+  else WITNESS("spawner_missing");
+#else
   CHECK(0, "qmail-send does not exit in this harness");
+#endif
   PATH_END();
 #ifdef VERIF_CBMC
   __CPROVER_assume(0);
@@ -291,6 +331,12 @@ void vmain(void)
 #if MODE == 1
   for (i = 0; i < K + 4; ++i) ASSUME(clk[i] >= 0 && clk[i] <= 100000);
   for (i = 0; i < K + 1; ++i) ASSUME(wpass[i] >= -100000 && wpass[i] <= 200000 && wclean[i] >= -100000 && wclean[i] <= 200000);
+#endif
+#if MODE == 2
+  ASSUME(lock_fails == 0 || lock_fails == 1);
+  ASSUME(read_result[0] >= -1 && read_result[0] <= 1 && read_result[1] >= -1 && read_result[1] <= 1);
+  ASSUME(cfg[0] <= 1000 && cfg[1] <= 1000);
+  concurrency[0] = cfg[0]; concurrency[1] = cfg[1];      /* what getcontrols() (cut) read from control/concurrency* */
 #endif
   send_main();
 }
